@@ -46,6 +46,14 @@ class Jail:
             with open(p, "w") as f:
                 f.write(STUB)
             os.chmod(p, 0o755)
+        # <root>/evilbin: the same names, logged as "evil:<name>" - what runs when PATH is redirected there
+        self.evilbin = os.path.join(root, "evilbin")
+        os.makedirs(self.evilbin)
+        for name in stub_names:
+            p = os.path.join(self.evilbin, name)
+            with open(p, "w") as f:
+                f.write(STUB.replace('rec="${0##*/}"', 'rec="evil:${0##*/}"'))
+            os.chmod(p, 0o755)
         for sh in ("bash", "sh"):
             os.symlink(BASH, os.path.join(self.bin, sh))
         for tool in real_tools:
@@ -66,7 +74,10 @@ class Jail:
                     shutil.rmtree(p, ignore_errors=True)
             else:
                 os.unlink(p)
-        for d in ("out", "secret", "askme", "sub", "sub/out", "sub/sub", "sub/sub/out"):
+        # only/ is granted at the top and not below sub/, deep/ the other way round: a verdict computed for the wrong
+        # directory shows as a write no rule grants
+        for d in ("out", "secret", "askme", "sub", "sub/out", "sub/sub", "sub/sub/out", "only", "sub/only", "deep", "sub/deep",
+                  "sub/sub/only", "sub/sub/deep"):
             os.makedirs(os.path.join(self.cwd, d), exist_ok=True)
         with open(os.path.join(self.cwd, "f"), "w") as f:
             f.write("data\n")
